@@ -70,6 +70,8 @@ def jobs(tier, seed):
         # FFT dispatch: grid of 1000 points, all but 3 entries per child concrete
         out.append({"name": "fft-G1000-two-children", "fft": True, "G": 1000, "D": 1, "cost": 2000,
                     "blocks": ((0,), (1,), (2,)), "parent": (2, 2, None)})
+    out.append({"name": "float-window-rows-at-different-scales", "floatwin": True, "G": 4, "D": 2, "cost": 3,
+                "blocks": ((0,), (1,), (2,)), "parent": (2, 2, None)})
     # canaries (quick: one per canary on a shape where it must bite)
     three = Forest([[0], [1], [2], [3]], [3, 3, 3, None])
     cherry = Forest([[0], [1], [2]], [2, 2, None])
@@ -118,9 +120,64 @@ def _blockprod(dps, block, d, g):
     return e
 
 
+def float_window_problems():
+    """Concrete complement to the real-arithmetic claim (runs on the unpatched code): samples whose likelihood rows sit ~800
+    nats apart, each row well inside its own underflow window - the reported root vector must still match a log-space brute
+    force per sample (the recursion normalises every sample by its own peak)."""
+    import numpy as np
+    from phyclone.tree import Tree
+    from phyclone.data.base import DataPoint
+    problems = []
+    rs = np.random.default_rng(5)
+    G, D = 4, 2
+    for shape in (Forest([[0], [1], [2]], [2, 2, None]), Forest([[0], [1], [2], [3]], [3, 3, 3, None]), Forest([[0], [1], [2]], [None, None, None]),
+                  Forest([[0], [1], [2], [3]], [1, None, 3, None])):
+        for offset in (-800.0, -1200.0):
+            dps = []
+            for i in range(shape.n):
+                v = np.log(rs.uniform(0.2, 2.0, size=(D, G)))
+                v[1, :] += offset
+                dps.append(DataPoint(i, v))
+            tree = shape.to_tree(dps, (D, G))
+            ll = tree.data_log_likelihood
+            logprior = -math.log(G)
+            for d in range(D):
+                for k in range(G):
+                    terms = []
+                    from vsym.spec.marginal import feasible_assignments
+                    for a in feasible_assignments(shape, G, k):
+                        terms.append(logprior + sum(logprior + sum(dps[x].value[d, g] for x in shape.blocks[i]) for i, g in enumerate(a)))
+                    m = max(terms)
+                    ref = m + math.log(sum(math.exp(t - m) for t in terms))
+                    if not math.isfinite(ll[d, k]) or abs(ll[d, k] - ref) > 1e-8:
+                        problems.append(f"{shape.describe()} offset {offset}: sample {d} entry {k}: reported {ll[d, k]:.6f}, brute force {ref:.6f}")
+                        break
+    return problems
+
+
+def _work_floatwin(job):
+    import json, os, subprocess, sys
+    root = os.path.dirname(os.path.dirname(os.path.abspath(__file__)))
+    code = "import sys, json; sys.path.insert(0, %r); import checks.c02 as m; print(json.dumps(m.float_window_problems()))" % root
+    pr = subprocess.run([sys.executable, "-c", code], cwd=root, capture_output=True, text=True, timeout=1800)
+    if pr.returncode != 0:
+        raise harness_inconclusive("float-window part failed to run: " + pr.stderr[-800:])
+    problems = json.loads(pr.stdout.strip().splitlines()[-1])
+    res = {"obligations": 1, "discharged": 0 if problems else 1, "cex": [], "nontrivial": True, "twin_ok": True,
+           "functions": ["phyclone.tree.utils:_np_conv_dims", "phyclone.tree.utils:compute_log_S"],
+           "sample": {"concrete": "4 shapes x 2 offsets, 2 samples ~800-1200 nats apart, grid 4: reported root vector vs log-space brute force (floats, unpatched code)"}}
+    if problems:
+        res["cex"].append({"kind": "float-window", "detail": problems[:3], "finding_key": "C02:float-window", "values": {}, "blocks": job["blocks"], "parent": job["parent"],
+                           "G": 4, "D": 2})
+    res["status"] = "cex" if problems else "ok"
+    return res
+
+
 def work(job):
     if job.get("fft"):
         return _work_fft(job)
+    if job.get("floatwin"):
+        return _work_floatwin(job)
     forest = _forest_from_job(job)
     G, D = job["G"], job["D"]
     res = {"obligations": 0, "discharged": 0, "cex": [], "nontrivial": len(forest.blocks) > 1}
@@ -227,6 +284,9 @@ def _work_fft(job):
 # concrete replay on the unpatched code
 
 def replay(case):
+    if case.get("kind") == "float-window":
+        pr = float_window_problems()
+        return bool(pr), pr[:3]
     if case.get("kind") == "fft":
         return False, "fft counterexamples are not replayed (stubbed transform)"
     forest = Forest([tuple(b) for b in case["blocks"]], [None if p is None else int(p) for p in case["parent"]])
@@ -268,7 +328,8 @@ def evidence(tier, seed, results, canaries):
             "bounds": {"clones": "all unlabelled forest shapes with <= 4 (quick) / 5 (thorough) clones, one data point per clone, plus 3 shapes with a 2-point clone",
                        "grid": "3 (quick); 3,4,5 (thorough); one G=1000 FFT-dispatch instance with 3 symbolic entries per clone (thorough)",
                        "samples": "1-2", "build orders": "incremental, full update(), alternative creation order"},
-            "outside_bounds": ["floating-point rounding, the 1e-100 floor and FFT round-off (real arithmetic only)", "more than 5 clones, grids > 5 (except the sparse FFT instance)"],
+            "concrete_complement": "one job replays concrete samples whose rows sit 800-1200 nats apart through the unpatched code against a log-space brute force (per-sample normalisation)",
+            "outside_bounds": ["floating-point rounding, the 1e-100 floor and FFT round-off (real arithmetic only; see concrete_complement)", "more than 5 clones, grids > 5 (except the sparse FFT instance)"],
             "obligations": obligations, "discharged": discharged,
             "evaluations": len(real), "distinct_nontrivial": sum(1 for r in real if r.get("nontrivial")),
             "rule": "one case per (forest shape, grid size, sample count); non-trivial = more than one clone",
